@@ -127,6 +127,19 @@ ScanAdaptAllowed(e) ==
      /\ Len(e.rows2) = Len(idx)
      /\ \A j \in 1..Len(idx) : e.rows2[j] = e.rows[idx[j]]
 
+\* long spans and tall triangles (hundreds of pixels: e.c05 = 2): every fragment is finite and sits at the
+\* centre of ITS pixel (the arithmetic of the value clauses would not fit 32 bits here)
+FragPosAllowed(e) ==
+  /\ e.panic = 0
+  /\ \A r \in 1..Len(e.rows) :
+       LET row == e.rows[r] IN
+       /\ row[4] = row[3] - row[2]
+       /\ \A k \in 1..Len(row[5]) :
+            LET f == row[5][k] IN
+            /\ f[1] = 1
+            /\ Abs(f[2] - (2 * (row[2] + k - 1) + 1) * (PosScale \div 2)) <= 2
+            /\ Abs(f[3] - (2 * row[1] + 1) * (PosScale \div 2)) <= 2
+
 \* every fragment of every scanline (C05 judges what is there; C04 judges which are there)
 FragAllowed(e) ==
   /\ e.panic = 0
